@@ -128,12 +128,22 @@ theorem dealloc_exact {s : St} (hI : Inv s) {a l : Nat} (hal : a % bsz s = 0) (h
   simp only [hal, hl, hg, ne_eq, not_true_eq_false, if_false, Bool.false_eq_true]
   exact ⟨r1, hinv, r2⟩
 
-/-- **realloc.** Reallocation preserves the invariant; when it grows a region the new blocks are taken from free
-    space while the old region is still allocated, so the copy reads intact bytes (the byte copy itself is
-    `pool.copy`, tied by the pattern check of the harness). -/
+/-- **realloc.** Reallocation (shrink, grow with move, bitmap growth inside the call) preserves the invariant. -/
 theorem realloc_inv (h : Heur) {s : St} (hI : Inv s) (nlenB addrB olenB : Nat) (f : Flags)
     (hok : ReleaseOk s (addrB / bsz s) (olenB / bsz s)) : Inv (reallocate h s nlenB addrB olenB f).1 :=
   inv_reallocate h hI nlenB addrB olenB f hok
+
+/-- **realloc_fresh.** A growing `reallocate` that succeeds returns a region of at least the requested length whose
+    blocks were held by nobody before the call; the old region is allocated until the copy is done (it is released
+    afterwards), so the two are disjoint and `pool.copy` reads intact bytes. (The byte copy itself is the file
+    layer's; it is tied by the pattern check of the harness.) -/
+theorem realloc_fresh (h : Heur) {s : St} (hI : Inv s) (nlenB addrB olenB : Nat) (f : Flags)
+    (hgrow : olenB / bsz s < roundup nlenB (bsz s) / bsz s)
+    (hok : (reallocate h s nlenB addrB olenB f).2.1 = .ok) :
+    ∃ naddr sp, (reallocate h s nlenB addrB olenB f).2.2.1 = naddr * bsz s ∧
+      (reallocate h s nlenB addrB olenB f).2.2.2.1 = sp * bsz s ∧ roundup nlenB (bsz s) / bsz s ≤ sp ∧
+      ∀ i, naddr ≤ i → i < naddr + sp → ¬ UserUsed s i :=
+  reallocate_grow_fresh h hI nlenB addrB olenB f hgrow hok
 
 /-- non-vacuity: on a concrete new file an allocation succeeds, so the hypotheses of the theorems above are met -/
 example : Inv (openNew 6 64 0 0 false).1 := inv_openNew (by decide) (by decide) (by decide) (by decide)
